@@ -338,6 +338,7 @@ func (d *Decimal) setExponent(c *Context, nd int64, res Condition, xs ...int64) 
 			// and coeff in ways that would be wrong here.
 			var tmp Decimal
 			tmp.Coeff.Set(&d.Coeff)
+			tmp.Negative = d.Negative
 			tmp.Exponent = r - Etiny
 			var integ, frac Decimal
 			tmp.Modf(&integ, &frac)
